@@ -1,0 +1,19 @@
+//go:build verif
+
+// Assumed contracts for package rdp (comment-only). The builder walks struct
+// tags through reflection (fatih/structs, mapstructure) and is outside the
+// verified subset; its functions are trusted, not verified (see C19 in
+// /verif/DESIGN.md).
+package rdp
+
+//@ func NewBuilder
+//@   trusted
+//@   ensures result != nil && fresh(result)
+
+//@ func NewBuilderFromFile
+//@   trusted
+//@   ensures result1 == nil ==> result0 != nil && fresh(result0)
+
+//@ func (*Builder).String
+//@   trusted
+//@   requires rb != nil
